@@ -1306,7 +1306,7 @@ class Program(NamedItem):
         if self.is_one_off:
             # The spending is $/year, and the /year gets eliminated if the unit cost is also per year. For one-off programs, the unit cost is not
             # /year, therefore we need to multiply the spending by the timestep to the capacity as people rather than people/year
-            spending *= dt
+            spending = spending * dt
 
         capacity = spending / unit_cost
 
@@ -1314,7 +1314,7 @@ class Program(NamedItem):
             capacity_constraint = self.capacity_constraint.interpolate(tvec, method="previous")
             if "/year" in self.capacity_constraint.units:
                 # The capacity_constraint constraint is applied to a number of people. If it is /year, then it must be multiplied by the timestep first
-                capacity_constraint *= dt
+                capacity_constraint = capacity_constraint * dt
             capacity = np.minimum(capacity_constraint, capacity)
 
         return capacity
@@ -1348,7 +1348,7 @@ class Program(NamedItem):
             prop_covered = np.minimum(prop_covered, 1.0)  # Ensure that coverage doesn't go above 1 (if saturation is < 1)
         else:
             # The division below means that 0/0 is treated as returning 1
-            prop_covered = np.divide(capacity, eligible, out=np.ones_like(capacity), where=eligible > capacity)
+            prop_covered = np.divide(capacity, eligible, out=np.ones(capacity.shape), where=eligible > capacity)
 
         return prop_covered
 
